@@ -18,8 +18,10 @@ ASSUMPTIONS = ['scipy interp1d(kind="linear", fill_value="extrapolate") = stable
                'straight line through the two neighbours (checked against the real scipy on every phase_align case of the run)',
                'np.digitize on increasing edges = number of edges <= value (checked on every bin_by_phase case)']
 RULE = ('get_cycle_stat: exhaustive label vectors over {-1,0,1,2} of length <= L (L=4 quick, 6 thorough) on fixed distinct dyadic values x 7 reducing '
-        'functions (np.mean, np.max, np.sum, len, first, last, lambda v: sum(v*v)-3*v[0]) x out in {cycles, samples}; random recordings up to 600 samples '
-        'with contiguous or arbitrary labellings, gaps anywhere, skipped labels. phase_align: 1-12 cycles of 8..400 samples (2..7 in the short family), '
+        'functions (np.mean, np.max, np.sum, len, first, last, lambda v: sum(v*v)-3*v[0]) x out in {cycles, samples}, repeated for length <= L-1 on integer '
+        'observations stored as int64 and on boolean observations; random recordings up to 600 samples '
+        'with contiguous or arbitrary labellings, gaps anywhere, skipped labels, observations stored as float64 (integers, dyadics, constants) or as '
+        'int64 / int32 / bool (small and wide integers, sample indices, flags), plus lambda v: sum(v)/2 (instance check only). phase_align: 1-12 cycles of 8..400 samples (2..7 in the short family), '
         'jittered strictly increasing phase, quantity affine in phase or a smooth function of phase, npoints 2..64, cycles given as a label vector with gaps '
         'or detected by default; interp_kind linear (model + instance) or slinear/quadratic/cubic (instance only). bin_by_phase: 2..64 bins or custom '
         'increasing edges, phases incl. exact edge values and 2*pi, integer observations, 1-3 columns, optional positive weights. '
@@ -37,7 +39,10 @@ def _lam(v):
 
 
 IMPL_FUNCS = {'mean': np.mean, 'max': np.max, 'sum': np.sum, 'len': len,
-              'first': lambda v: v[0], 'last': lambda v: v[-1], 'lambda': _lam}
+              'first': lambda v: v[0], 'last': lambda v: v[-1], 'lambda': _lam,
+              'halfsum': lambda v: np.sum(v) / 2}
+# user lambda with a non-integral result on integer / boolean observations; not a reducer of the model (instance check only)
+INSTANCE_ONLY_FUNCS = ('halfsum',)
 
 
 class _Raises(Exception):
@@ -50,6 +55,8 @@ def oracle_reduce(name, seg):
         return None if not seg else sum(seg) / len(seg)
     if name == 'sum':
         return sum(seg, Fraction(0))
+    if name == 'halfsum':
+        return sum(seg, Fraction(0)) / 2
     if name == 'len':
         return Fraction(len(seg))
     if not seg:
@@ -101,10 +108,20 @@ BASE_VALS = [1.0, 2.5, -3.0, 7.25, 0.5, -1.75, 4.0, 10.0]
 FUNCS = ['mean', 'max', 'sum', 'len', 'first', 'last', 'lambda']
 
 
-def run_stat(cv, vals, fname, out):
+INT_VALS = [1.0, 2.0, -3.0, 7.0, 0.0, -2.0, 4.0, 10.0]      # stored as int64: means of 2..4 of them are non-integral dyadics/thirds
+BOOL_VALS = [1.0, 0.0, 1.0, 1.0, 0.0, 1.0, 0.0, 0.0]        # stored as bool
+VDTYPES = ['int64', 'int32', 'bool']                        # storage types of the observations besides float64
+
+
+def run_stat(cv, vals, fname, out, vdtype=None):
     import emd
     c = np.array(cv, dtype=int)
     v = np.array(vals, dtype=float)
+    if vdtype not in (None, 'float64'):
+        vd = v.astype(vdtype)
+        if not np.array_equal(vd.astype(float), v):
+            raise RuntimeError('harness: case values are not representable as %s' % vdtype)
+        v = vd
     c.setflags(write=False)
     v.setflags(write=False)
     kw = {} if out == 'cycles' else {'out': 'samples'}
@@ -159,20 +176,26 @@ class StatExhaustive(Stream):
         for n in range(1, L + 1):
             for pre in itertools.product((-1, 0, 1, 2), repeat=min(n, 2)):
                 yield {'n': n, 'prefix': list(pre)}
+        # the same label vectors on observations stored as integers / booleans (one length shorter)
+        for vd in ('int64', 'bool'):
+            for n in range(1, L):
+                for pre in itertools.product((-1, 0, 1, 2), repeat=min(n, 2)):
+                    yield {'n': n, 'prefix': list(pre), 'vdtype': vd}
 
     def _items(self, case):
         n, pre = case['n'], case['prefix']
+        base = {'int64': INT_VALS, 'bool': BOOL_VALS}.get(case.get('vdtype'), BASE_VALS)
         for tail in itertools.product((-1, 0, 1, 2), repeat=n - len(pre)):
             cv = list(pre) + list(tail)
             for f in FUNCS:
                 for out in ('cycles', 'samples'):
-                    yield cv, BASE_VALS[:n], f, out
+                    yield cv, base[:n], f, out
 
     def impl(self, case):
         res = []
         for cv, vals, f, out in self._items(case):
             try:
-                res.append(run_stat(cv, vals, f, out))
+                res.append(run_stat(cv, vals, f, out, case.get('vdtype')))
             except Exception as e:  # noqa
                 res.append({'error': type(e).__name__})
         return res
@@ -199,7 +222,7 @@ class StatExhaustive(Stream):
         return list(fs.values())
 
     def tags(self, case, out):
-        return ['n=%d' % case['n']]
+        return ['n=%d' % case['n'], 'values=' + case.get('vdtype', 'float64')]
 
     def nontrivial(self, case, out):
         return case['n'] >= 3
@@ -254,6 +277,18 @@ class StatRandom(Stream):
             {'cv': [-1, -1], 'vals': [5.0, 6.0], 'f': 'sum', 'out': 'samples'},
             {'cv': [1, 0, 1, 0, -1, 1], 'vals': [1.0, 2.0, 3.0, 4.0, 5.0, 6.0], 'f': 'last', 'out': 'samples'},
             {'cv': [0] * 11, 'vals': [1.0] * 11, 'f': 'len', 'out': 'cycles'},
+            # observations stored as integers / booleans, statistic not representable in that type (round-2 seeded change:
+            # output allocated with the dtype of the observations, so the statistic and its projection were truncated)
+            {'cv': [0, 0, 1, 1, 1, -1], 'vals': [1.0, 2.0, 3.0, 3.0, 4.0, 9.0], 'f': 'mean', 'out': 'cycles', 'vdtype': 'int64'},
+            {'cv': [0, 0, -1, 1, 1, 1], 'vals': [1.0, 2.0, 9.0, 3.0, 3.0, 4.0], 'f': 'mean', 'out': 'samples', 'vdtype': 'int32'},
+            {'cv': [0, 0, 0, -1, 1, 1], 'vals': [-1.0, -2.0, -2.0, 5.0, -7.0, -8.0], 'f': 'mean', 'out': 'cycles', 'vdtype': 'int64'},
+            {'cv': [0, 0, 0, 1, 1, -1], 'vals': [1.0, 0.0, 1.0, 1.0, 1.0, 0.0], 'f': 'sum', 'out': 'cycles', 'vdtype': 'bool'},
+            {'cv': [0, 0, 0, 1, 1, -1], 'vals': [1.0, 0.0, 1.0, 1.0, 1.0, 0.0], 'f': 'len', 'out': 'samples', 'vdtype': 'bool'},
+            {'cv': [0, 0, 0, 1, 1, -1], 'vals': [1.0, 0.0, 1.0, 0.0, 1.0, 0.0], 'f': 'mean', 'out': 'samples', 'vdtype': 'bool'},
+            {'cv': [0, 0, 0, 1, 1, -1], 'vals': [1.0, 0.0, 0.0, 1.0, 0.0, 0.0], 'f': 'lambda', 'out': 'cycles', 'vdtype': 'bool'},
+            {'cv': [0, -1, 2, 2], 'vals': [0.0, 1.0, 2.0, 3.0], 'f': 'mean', 'out': 'cycles', 'vdtype': 'int64'},   # skipped label -> NaN
+            {'cv': [0, 0, 0, 1, 1, -1], 'vals': [1.0, 2.0, 4.0, 3.0, 4.0, 0.0], 'f': 'halfsum', 'out': 'cycles', 'vdtype': 'int64'},
+            {'cv': [0, 0, 0, 1, 1, -1], 'vals': [1.5, 2.0, 4.0, 3.0, 4.25, 0.0], 'f': 'halfsum', 'out': 'samples'},
         ]
 
     def generate(self, rng, tier):
@@ -268,14 +303,32 @@ class StatRandom(Stream):
             else:
                 vals = [1.0] * len(cv)
             yield {'cv': cv, 'vals': vals, 'f': rng.choice(FUNCS), 'out': rng.choice(['cycles', 'samples'])}
+        # observations stored as int64 / int32 / bool (counts, sample indices, flags)
+        for _ in range(1200 if tier == 'thorough' else 160):
+            n = rng.choice([2, 3, 7, 20, 60, 200, 600])
+            cv = gen_labels(rng, n, rng.choice(['contiguous', 'contiguous', 'arbitrary', 'skipping', 'all-gap']))
+            vd = rng.choice(VDTYPES)
+            if vd == 'bool':
+                p = rng.choice([0.2, 0.5, 0.8])
+                vals = [float(rng.random() < p) for _ in cv]
+            else:
+                kind = rng.choice(['small', 'wide', 'index'])
+                vals = [float(i) for i in range(len(cv))] if kind == 'index' else \
+                    [float(rng.randint(*((-5, 5) if kind == 'small' else (-1000, 1000)))) for _ in cv]
+            yield {'cv': cv, 'vals': vals, 'f': rng.choice(FUNCS + ['mean', 'mean', 'halfsum']),
+                   'out': rng.choice(['cycles', 'samples']), 'vdtype': vd}
 
     def impl(self, case):
-        return run_stat(case['cv'], case['vals'], case['f'], case['out'])
+        return run_stat(case['cv'], case['vals'], case['f'], case['out'], case.get('vdtype'))
 
     def ops(self, case, out):
+        if case['f'] in INSTANCE_ONLY_FUNCS:
+            return []
         return [stat_op(case['cv'], case['vals'], case['f'], case['out'])]
 
     def compare(self, case, out, results):
+        if case['f'] in INSTANCE_ONLY_FUNCS:
+            return None
         o = {'error': out['error']} if isinstance(out, ImplError) else out
         return compare_stat(case['cv'], case['vals'], case['f'], case['out'], o, results[0])
 
@@ -285,7 +338,7 @@ class StatRandom(Stream):
 
     def tags(self, case, out):
         cv = case['cv']
-        t = ['f=' + case['f'], 'out=' + case['out']]
+        t = ['f=' + case['f'], 'out=' + case['out'], 'values=' + case.get('vdtype', 'float64')]
         if -1 in cv:
             t.append('has-gap')
         K = max(cv) + 1
@@ -310,6 +363,8 @@ class StatRandom(Stream):
                 yield dict(case, cv=cv[:n - cut], vals=vals[:n - cut])
         if any(v != round(v) for v in vals):
             yield dict(case, vals=[float(round(v)) for v in vals])
+        if case.get('vdtype') != 'bool' and any(abs(v) > 9 for v in vals):
+            yield dict(case, vals=[float(int(v) % 10) for v in vals])
 
 
 # ----------------------------------------------------------------------------- phase_align
